@@ -216,6 +216,9 @@ func Load(repo, verif string, prop string) (*Loaded, error) {
 						Depth: atoiDef(kv["depth"], 400), Solver: kv["solver"], File: real[fname], PkgPath: ip.PkgPath,
 						Stubs: fileStubs, ChanCap: fileCaps, Inits: fileInits, TimeMode: timeMode,
 						MaxPaths: atoiDef(kv["maxpaths"], 2000000), PanicOK: kv["panic"] == "ok"}
+					if kv["qtimeout"] == "" {
+						kv["qtimeout"] = "10"
+					}
 					if h.Solver == "" {
 						h.Solver = "z3"
 					}
